@@ -192,6 +192,7 @@ func (nd *Node) initChain(gen types.AppState) {
 
 // Restart drops the in-memory application and boots a new one from the disk.
 func (nd *Node) Restart() CallResult {
+	nd.waitSnapshots(true)
 	nd.App = nil
 	nd.Disk.Reopen()
 	return guard(func() { nd.boot() })
@@ -249,14 +250,21 @@ func (nd *Node) End(h uint64) (abci.ResponseEndBlock, CallResult) {
 func (nd *Node) Commit() (abci.ResponseCommit, CallResult) {
 	var r abci.ResponseCommit
 	res := guard(func() { r = nd.App.Commit() })
-	nd.waitSnapshots()
+	nd.waitSnapshots(false)
 	return r, res
 }
 
 // waitSnapshots lets the background snapshot of the block just committed finish: the harness produces blocks within
 // milliseconds, a real chain within seconds (the node starts one goroutine per snapshot height and they may overtake each other).
-func (nd *Node) waitSnapshots() {
+// With force the scheduler gate of a deliberately delayed snapshot is opened first; without it a closed gate means
+// "do not wait": the delayed snapshot is meant to overlap the next block.
+func (nd *Node) waitSnapshots(force bool) {
 	if nd.Snap > 0 && nd.App != nil {
+		if force {
+			nd.Disk.WC.ReleaseGate()
+		} else if nd.Disk.WC.GateArmed() {
+			return
+		}
 		_ = guard(func() { nd.App.VerifWaitSnapshots() })
 	}
 }
@@ -268,7 +276,7 @@ func (nd *Node) Info() (abci.ResponseInfo, CallResult) {
 }
 
 func (nd *Node) Close() {
-	nd.waitSnapshots()
+	nd.waitSnapshots(true)
 	if nd.Disk != nil {
 		nd.Disk.Destroy()
 	}
